@@ -317,7 +317,7 @@ class ParserEngine(ParserCore, CanParse):
             if not isinstance(expression, str):
                 break
 
-            expression = trim(expression)
+            expression = result = trim(expression)
             with suppress(ValueError, SyntaxError):
                 result = stdlib_ast.literal_eval(expression.strip())
                 assert result is not Undefined
